@@ -61,6 +61,16 @@ func main() {
 			fmt.Printf("instr: maporder: %d map range statements rewritten\n", n)
 			continue
 		}
+		if sn == "points" {
+			// must be listed last: it works on top of the files the other seams produced
+			n, err := pointsSeam(repo, out, overlay)
+			if err != nil {
+				fmt.Println("instr: points:", err)
+				os.Exit(3)
+			}
+			fmt.Printf("instr: points: %d code points inserted\n", n)
+			continue
+		}
 		r, ok := seams[sn]
 		if !ok {
 			fmt.Println("unknown seam", sn)
